@@ -1039,13 +1039,24 @@ static int gw_run(const int *prog, int n) {
         failed = 1;
         if (task_mode) task_release_all();
         if (m_ctx_name() && m_ctx() && m_ctx()->state == M_CTX_LOOPING) { m_ctx_quit(0); batch_armed = 0; nbatch = 0; m_ctx_dispatch(); }     /* a looping context refuses to go */
-        if (m_ctx_name()) { for (int i = 0; i < nmods; i++) if (H[i] && m_mod_state(H[i]) != M_MOD_ZOMBIE) m_mod_deregister(&H[i]); if (m_ctx_name()) m_ctx_deregister(); }
-        for (int i = 0; i < nmods; i++) for (; H[i] && hcnt[i] > 0; hcnt[i]--) m_mem_unref(H[i]);
+        /* every reference the program holds is dropped exactly once (a successful deregistration consumes one of them) */
+        for (int i = 0; i < nmods; i++) if (H[i]) {
+            m_mod_t *h = H[i], *tmp = h;
+            if (m_ctx_name() && m_mod_state(h) != M_MOD_ZOMBIE && m_mod_deregister(&tmp) == 0 && !tmp) hcnt[i]--;
+            for (; hcnt[i] > 0; hcnt[i]--) m_mem_unref(h);
+            H[i] = NULL;
+        }
+        if (m_ctx_name()) m_ctx_deregister();
         for (int q = 0; q < nheld; q++) m_mem_unref(HELD[q]);
+        nheld = 0;
         if (task_mode) { struct timespec ts = {0, 2000000}; nanosleep(&ts, NULL); }        /* (let released task threads finish) */
         free_payloads();
+        long left = vp_outstanding + __atomic_load_n(&vp_foreign_outstanding, __ATOMIC_SEQ_CST) - base;
         vp_outstanding = base - __atomic_load_n(&vp_foreign_outstanding, __ATOMIC_SEQ_CST);
         failed = 0;
+        /* the driver's own teardown reaches a clean state too (every module deregistered, every reference dropped, context released) */
+        if (left != 0) { gw_mismatch(prog, n, n - 1, "core-leak-after-teardown", "allocator ledger: %ld blocks outstanding after the program's modules were deregistered, its references dropped and its context released", left); if (gw_forked) gw_resume_exit(); return 1; }
+        if (lib_fds_open()) { gw_mismatch(prog, n, n - 1, "core-fd-leak-after-teardown", "%d descriptors opened by the library are still open after the program's modules were deregistered, its references dropped and its context released", lib_fds_open()); if (gw_forked) gw_resume_exit(); return 1; }
     }
 #if defined(__has_feature)
 #if __has_feature(address_sanitizer)
